@@ -12,6 +12,7 @@ import Gozod.Model.Prim
 import Gozod.Model.Str
 import Gozod.Model.StrU
 import Gozod.Model.PrimMethodsSpec
+import Gozod.Model.Regex
 import Gozod.Model.NumChecks
 import Gozod.Drv.C10
 import Gozod.Drv.C16
@@ -65,6 +66,25 @@ def parseNChecks : Nat → List String → Option (List (Check NumChecks.NPred U
     pure (.pred .safe false none :: cs, r)
   | _, _ => none
 
+/-- The documented meaning of a pure-literal pattern, as a regular expression for the derivative matcher
+    of `Gozod.Model.Regex` (C20's spec machinery): unanchored = `.*lit.*` over all bytes. -/
+def reOfLit (mode : Nat) (lit : Bytes) : Re :=
+  let any := Re.star (Re.cls [(0, 255)])
+  let l := Re.seqs (lit.map Re.byte)
+  match mode with
+  | 0 => Re.seq any (Re.seq l any)
+  | 1 => Re.seq l any
+  | 2 => Re.seq any l
+  | _ => l
+
+/-- The spec environment for strings: literal patterns decided by the derivative matcher, everything
+    else by its byte-level definition; overwrites with Go's Unicode behaviour. -/
+def specEnvStr : Env Str.SPred Str.SOw Nat Bytes :=
+  ⟨fun p b => match p with
+    | .relit m l => Re.accepts (reOfLit m l) b
+    | p => Str.holds p b,
+   StrU.apply, Str.customTr⟩
+
 def specAll {P O T V} (env : Env P O T V) (cs : List (Check P O)) (v : V) : Bool :=
   (List.range cs.length).all fun k => !failsAt env cs k v
 
@@ -95,7 +115,7 @@ def handleLine (line : String) : String :=
         | some x =>
           let m := renderOut hex (parse StrU.env i x)
           let acc := match x with
-            | .val v | .ptr v => if specAll StrU.env cs v then some (hex (seenAt StrU.env cs cs.length v)) else none
+            | .val v | .ptr v => if specAll specEnvStr cs v then some (hex (seenAt specEnvStr cs cs.length v)) else none
             | _ => none
           m ++ "\t" ++ specVerdict acc impl
       | _ => "bad-op"
